@@ -152,6 +152,7 @@ def run(ck):
     ck.rule("C08.R11", "EnvFilter publishes `never` only when it has no span directives, and `always` only for what the static directives (or a stored span matcher) enable", floor=3)
     ck.rule("C08.R12", "Layered decides `the value below me is the Registry` from that value's own type: a layer combined with and_then keeps its hint", floor=1)
     ck.rule("C08.R13", "wrappers hand out type-identity answers (downcast_raw) with the right polarity, and a reload handle lets the per-layer-filter marker through (as C09.R2)", floor=8)
+    ck.rule("C08.R14", "Layered::pick_level_hint / pick_interest: complete decision tables (every flag combination x hint/interest class) equal the reference composition", floor=2)
     ck.rule("C08.R8", "level hints and thresholds are compared by a correct total order (as C19.R1/R2/R4)", floor=60)
     ck.rule("C08.R1", "And/Or/Not: interest table sound w.r.t. enabled; hint is a sound bound", floor=6)
     ck.rule("C08.R2", "Option<F>: None is neutral, Some forwards", floor=4)
@@ -168,6 +169,7 @@ def run(ck):
     builder_carry_over(ck, F, "C08.R10", ("tracing_subscriber::filter::filter_fn::",))
     envfilter_interest(ck, F)
     inner_is_registry_rule(ck, F)
+    pick_tables(ck, F)
     from rules import C09
     C09.wrapper_rules(ck, F, rids={"R0": "C08.R13", "R1": "C08.R13", "R2": "C08.R13", "R3": "C08.R13"}, traits=["tracing_subscriber::subscribe::Subscribe"], only={"downcast_raw"})
     r1(ck, F)
@@ -781,3 +783,111 @@ def inner_is_registry_rule(ck, F, rid="C08.R12"):
     else:
         ck.bad(rid, key, where(b.raw["sp"]), "inner_is_registry is computed from TypeId::of::<%s>, but the inner value has type %s: in an and_then tree over a Registry "
                "the inner *layer* is taken for the registry and its level hint is ignored" % (others, inner_ty), fn=b.path)
+
+
+def pick_tables(ck, F, rid="C08.R14"):
+    """The two functions through which a Layered stack combines what its halves published. Their control flow is a
+    cascade of flag tests whose order matters; the rules elsewhere pin single clauses (None layers, the registry test,
+    who is asked). Here the whole function is turned into a table: every return path PathEval enumerates is evaluated
+    on concrete representatives -- all 2^5 flag settings x outer hint in {None, Some(OFF), Some(INFO)} x inner hint in
+    {None, Some(OFF), Some(ERROR), Some(DEBUG)} (384 rows), resp. 2^2 flags x 3 x 3 interests (36 rows) -- and compared
+    with the reference composition written out below (the behaviour confirmed on the pinned tree and by its eleven unit
+    tests). A rewrite that keeps the function's meaning keeps the table; any change of meaning changes a row."""
+    import itertools
+    from rulekit.fdeval import table
+    L = "tracing_subscriber::subscribe::layered::Layered::<A, B, C>::"
+    b = F.body(L + "pick_level_hint")
+    if ck.anchor(rid, "Layered::pick_level_hint", b):
+        def hook(t, env):
+            if t[0] == "call" and t[1].endswith("subscribe::subscriber_is_none"):
+                return env["subscriber_is_none"]
+            return NotImplemented
+
+        def spec(R, O, I, N, M, o, i):
+            k = lambda v: (0, 0) if v is None else (1, v[1])
+            mx = lambda x, y: y if k(y) >= k(x) else x
+            if R:                       # the value below is the Registry: it has no opinion
+                return o
+            if O and I:                 # both halves per-layer filtered: only if both have a hint
+                return None if (o is None or i is None) else ("Some", max(o[1], i[1]))
+            if O and i is None:
+                return None
+            if I and o is None:
+                return None
+            if N:                       # this layer is Option::None
+                return None if i is None else mx(o, i)
+            if M and i == ("Some", 0):  # the layer below is None and said OFF
+                return o
+            return mx(o, i)
+        envs, keys = [], []
+        for R, O, I, N, M in itertools.product([False, True], repeat=5):
+            for o in (None, ("Some", 0), ("Some", 3)):
+                for i in (None, ("Some", 0), ("Some", 1), ("Some", 4)):
+                    envs.append({"self.inner_is_registry": R, "self.has_subscriber_filter": O, "self.inner_has_subscriber_filter": I,
+                                 "subscriber_is_none": N, "arg4": M, "arg2": o, "arg3": i})
+                    keys.append((R, O, I, N, M, o, i))
+        ev = PathEval(b)
+        paths = [p for p in ev.run() if p.end == "return"]
+        res = table(b, paths, envs, [hook])
+        undec = [(k, r[1]) for k, r in zip(keys, res) if r[1]]
+        wrong = [(k, r[0]) for k, r in zip(keys, res) if not r[1] and r[0] != spec(*k)]
+        key = "pick_level_hint: 384-row table equals the reference composition"
+        names = ("inner_is_registry", "has_subscriber_filter", "inner_has_subscriber_filter", "subscriber_is_none", "inner_is_none", "outer_hint", "inner_hint")
+        if wrong:
+            k0, got = wrong[0]
+            ck.bad(rid, key, where(b.raw["sp"]), "%d rows differ, e.g. %s -> %s, reference %s" % (len(wrong), dict(zip(names, k0)), got, spec(*k0)), fn=b.path)
+        elif ev.truncated or len(undec) > len(keys) // 2:
+            ck.bad(rid, key, where(b.raw["sp"]), "the function could not be turned into a table (%s)" % (undec[0][1] if undec else "path enumeration truncated"), fn=b.path)
+        else:
+            ck.ok(rid, key, fn=b.path, detail="%d rows decided, %d not evaluable" % (len(keys) - len(undec), len(undec)))
+    b = F.body(L + "pick_interest")
+    if ck.anchor(rid, "Layered::pick_interest", b):
+        NEVER, SOMETIMES, ALWAYS = "never", "sometimes", "always"
+
+        def hook2(t, env):
+            if t[0] == "call":
+                p = t[1]
+                if p.endswith("FnOnce::call_once") and t[2] and t[2][0] == ("arg", 3):
+                    return env["inner"]
+                for nm in ("never", "sometimes", "always"):
+                    if p.endswith("Interest::is_" + nm) and t[2]:
+                        return feval_i(t[2][0], env) == nm
+                    if p.endswith("Interest::" + nm) and not t[2]:
+                        return nm
+                if p.endswith("FilterState::take_interest"):
+                    return None
+            return NotImplemented
+
+        def feval_i(t, env):
+            from rulekit.fdeval import feval
+            return feval(t, env, b, [hook2])
+
+        def spec2(O, I, outer, inner):
+            if O:
+                return inner
+            if outer == NEVER:
+                return NEVER
+            if outer == SOMETIMES:
+                return SOMETIMES
+            if inner == NEVER and I:
+                return SOMETIMES
+            return inner
+        envs, keys = [], []
+        for O, I in itertools.product([False, True], repeat=2):
+            for outer in (NEVER, SOMETIMES, ALWAYS):
+                for inner in (NEVER, SOMETIMES, ALWAYS):
+                    envs.append({"self.has_subscriber_filter": O, "self.inner_has_subscriber_filter": I, "arg2": outer, "inner": inner})
+                    keys.append((O, I, outer, inner))
+        ev = PathEval(b)
+        paths = [p for p in ev.run() if p.end == "return"]
+        res = table(b, paths, envs, [hook2])
+        undec = [(k, r[1]) for k, r in zip(keys, res) if r[1]]
+        wrong = [(k, r[0]) for k, r in zip(keys, res) if not r[1] and r[0] != spec2(*k)]
+        key = "pick_interest: 36-row table equals the reference composition"
+        if wrong:
+            k0, got = wrong[0]
+            ck.bad(rid, key, where(b.raw["sp"]), "%d rows differ, e.g. (has_subscriber_filter, inner_has_subscriber_filter, outer, inner) = %s -> %s, reference %s" % (len(wrong), k0, got, spec2(*k0)), fn=b.path)
+        elif ev.truncated or len(undec) > len(keys) // 2:
+            ck.bad(rid, key, where(b.raw["sp"]), "the function could not be turned into a table (%s)" % (undec[0][1] if undec else "path enumeration truncated"), fn=b.path)
+        else:
+            ck.ok(rid, key, fn=b.path, detail="%d rows decided, %d not evaluable" % (len(keys) - len(undec), len(undec)))
